@@ -18,11 +18,12 @@ import numpy as np
 
 from . import fx_retrieval as fx
 
-# observations the user switches between: 1 and 2 have the same number of bins on different grids, 3 has more
+# observations the user switches between: 1, 2 and 4 have the same number of bins on different grids, 3 has more
 # bins (all inside the native range 1000..2000 cm-1 of the fixture opacities); id 0 = no observation
 OBS = {1: dict(centres=[1100.0, 1300.0, 1500.0, 1700.0, 1900.0], widths=[100.0, 120.0, 80.0, 150.0, 100.0]),
        2: dict(centres=[1060.0, 1240.0, 1450.0, 1640.0, 1850.0], widths=[80.0, 100.0, 140.0, 120.0, 90.0]),
-       3: dict(centres=[1080.0, 1200.0, 1320.0, 1440.0, 1560.0, 1680.0, 1800.0], widths=[100.0] * 7)}
+       3: dict(centres=[1080.0, 1200.0, 1320.0, 1440.0, 1560.0, 1680.0, 1800.0], widths=[100.0] * 7),
+       4: dict(centres=[1150.0, 1350.0, 1520.0, 1730.0, 1880.0], widths=[150.0, 90.0, 110.0, 100.0, 120.0])}
 # selections of fitted parameters (model parameter names) and of derived parameters
 SELS = [['T', 'H2O'], ['planet_radius', 'T', 'H2O']]
 SEL_NAMES = [['T', 'log_H2O'], ['planet_radius', 'T', 'log_H2O']]       # names the optimizer reports (H2O is fitted in log)
